@@ -22,7 +22,11 @@ use rusl::platform::{
 use rusl::string::unix_str::UnixStr;
 use vharness::{guarded, json, quiet_panics, Out, Value};
 
-const NAMES: [&str; 5] = ["f0", "f1", "nx", "d", "d/x"];
+/// names; resolved against one of three directories: 0 = the world's root, 1 = its subdirectory d, 2 = the process'
+/// working directory (shared by both worlds, read-only use)
+const NAMES: [&str; 8] = ["f0", "f1", "nx", "d", "d/x", "x", "cw", "ln"];
+/// everything of a world that an operation can change, as paths from the world's root
+const DIGEST: [&str; 9] = ["f0", "f1", "nx", "d", "d/x", "d/f0", "d/nx", "ln", "nx/x"];
 const NHANDLES: usize = 3;
 const BADFD: i32 = 999_999;
 const ECANCELED: i64 = -125;
@@ -44,6 +48,7 @@ fn cstr(s: &str) -> CString {
 struct World {
     path: String,
     dir: i32,
+    dird: i32,
     h: [i32; NHANDLES],
 }
 
@@ -53,7 +58,15 @@ impl World {
         std::fs::create_dir_all(&path).unwrap();
         let dir = unsafe { libc::open(cstr(&path).as_ptr(), libc::O_RDONLY | libc::O_DIRECTORY | libc::O_CLOEXEC) };
         assert!(dir >= 0);
-        World { path, dir, h: [-1; NHANDLES] }
+        World { path, dir, dird: -1, h: [-1; NHANDLES] }
+    }
+    /// directory descriptor selected by an operation's "dir" field (None = AT_FDCWD)
+    fn dirfd(&self, sel: u64) -> Option<i32> {
+        match sel {
+            0 => Some(self.dir),
+            1 => Some(self.dird),
+            _ => None,
+        }
     }
     /// the initial content: f0 = "hello world, 0123456789", f1 empty, d/ empty dir; h0 open on f0
     fn reset(&mut self) {
@@ -67,9 +80,17 @@ impl World {
         std::fs::create_dir_all(format!("{}/d", self.path)).unwrap();
         std::fs::write(format!("{}/f0", self.path), b"hello world, 0123456789").unwrap();
         std::fs::write(format!("{}/f1", self.path), b"").unwrap();
-        unsafe { libc::close(self.dir) };
+        std::os::unix::fs::symlink("f0", format!("{}/ln", self.path)).unwrap();
+        unsafe {
+            libc::close(self.dir);
+            if self.dird >= 0 {
+                libc::close(self.dird);
+            }
+        }
         self.dir = unsafe { libc::open(cstr(&self.path).as_ptr(), libc::O_RDONLY | libc::O_DIRECTORY | libc::O_CLOEXEC) };
         assert!(self.dir >= 0);
+        self.dird = unsafe { libc::openat(self.dir, cstr("d").as_ptr(), libc::O_RDONLY | libc::O_DIRECTORY | libc::O_CLOEXEC) };
+        assert!(self.dird >= 0);
         self.h[0] = unsafe { libc::openat(self.dir, cstr("f0").as_ptr(), libc::O_RDWR | libc::O_CLOEXEC) };
         assert!(self.h[0] >= 0);
     }
@@ -111,20 +132,27 @@ impl World {
     /// what the world looks like: every name (type, size, content) and which handles are open
     fn digest(&self) -> Value {
         let mut names = Vec::new();
-        for n in NAMES {
+        use std::os::unix::fs::PermissionsExt;
+        for n in DIGEST {
             let p = format!("{}/{}", self.path, n);
             match std::fs::symlink_metadata(&p) {
                 Err(_) => names.push(json!([n, "absent"])),
-                Ok(m) if m.is_dir() => names.push(json!([n, "dir", std::fs::read_dir(&p).map(|d| d.count()).unwrap_or(0)])),
+                Ok(m) if m.file_type().is_symlink() => names.push(json!([n, "symlink", std::fs::read_link(&p).map(|t| t.to_string_lossy().to_string()).unwrap_or_default()])),
+                Ok(m) if m.is_dir() => {
+                    let mut kids: Vec<String> = std::fs::read_dir(&p).map(|d| d.filter_map(|e| e.ok().map(|e| e.file_name().to_string_lossy().to_string())).collect()).unwrap_or_default();
+                    kids.sort();
+                    names.push(json!([n, "dir", m.permissions().mode() & 0o7777, kids]));
+                }
                 Ok(m) => {
                     let c = std::fs::read(&p).unwrap_or_default();
-                    names.push(json!([n, "file", m.len(), String::from_utf8_lossy(&c[..c.len().min(80)])]));
+                    names.push(json!([n, "file", m.permissions().mode() & 0o7777, m.len(), String::from_utf8_lossy(&c[..c.len().min(80)])]));
                 }
             }
         }
-        let extra: Vec<String> = std::fs::read_dir(&self.path)
-            .map(|d| d.filter_map(|e| e.ok().map(|e| e.file_name().to_string_lossy().to_string())).filter(|n| !NAMES.contains(&n.as_str())).collect())
+        let mut extra: Vec<String> = std::fs::read_dir(&self.path)
+            .map(|d| d.filter_map(|e| e.ok().map(|e| e.file_name().to_string_lossy().to_string())).filter(|n| !DIGEST.contains(&n.as_str())).collect())
             .unwrap_or_default();
+        extra.sort();
         let hs: Vec<bool> = self.h.iter().map(|h| *h >= 0 && unsafe { libc::fcntl(*h, libc::F_GETFD) } >= 0).collect();
         json!({"names": names, "extra": extra, "handles": hs})
     }
@@ -193,7 +221,9 @@ struct Built {
 fn build(op: &Value, w: &World, u: u64, link: bool, keep: &mut Keep) -> Built {
     let fl = if link { IoUringSQEFlags::IOSQE_IO_LINK } else { IoUringSQEFlags::empty() };
     let g = |k: &str| op[k].as_u64().unwrap_or(0);
-    let dir = Some(Fd::try_new(w.dir).unwrap());
+    let dirsel = |k: &str| w.dirfd(g(k)).map(|d| Fd::try_new(d).unwrap());
+    let dir = dirsel("dir");
+    let mode = |k: &str, dflt: u32| Mode::from(if g(k) == 1 { dflt & 0o700 } else { dflt });
     let kind = op["op"].as_str().unwrap();
     let mut buf_ix = None;
     let mut stx_ix = None;
@@ -201,7 +231,7 @@ fn build(op: &Value, w: &World, u: u64, link: bool, keep: &mut Keep) -> Built {
         match kind {
             "openat" => {
                 let (of, _) = open_flags(g("fl"));
-                IoUringSubmissionQueueEntry::new_openat(dir, upath(keep, NAMES[g("name") as usize]), of, Mode::from(0o644), u, fl)
+                IoUringSubmissionQueueEntry::new_openat(dir, upath(keep, NAMES[g("name") as usize]), of, mode("mode", 0o644), u, fl)
             }
             "close" => IoUringSubmissionQueueEntry::new_close(Fd::try_new(w.fd(g("h") as usize)).unwrap(), u, fl),
             "readv" => {
@@ -232,19 +262,30 @@ fn build(op: &Value, w: &World, u: u64, link: bool, keep: &mut Keep) -> Built {
                 keep.stx.push(b);
                 stx_ix = Some(keep.stx.len() - 1);
                 let p = (&mut **keep.stx.last_mut().unwrap()) as *mut libc::statx;
-                IoUringSubmissionQueueEntry::new_statx(dir, upath(keep, NAMES[g("name") as usize]), StatxFlags::empty(),
-                    StatxMask::STATX_BASIC_STATS, p.cast::<Statx>(), u, fl)
+                if g("empty") == 1 {
+                    // the file behind a handle: empty path + AT_EMPTY_PATH
+                    IoUringSubmissionQueueEntry::new_statx(Some(Fd::try_new(w.fd(g("h") as usize)).unwrap()), upath(keep, ""), StatxFlags::AT_EMPTY_PATH,
+                        StatxMask::STATX_BASIC_STATS, p.cast::<Statx>(), u, fl)
+                } else {
+                    IoUringSubmissionQueueEntry::new_statx(dir, upath(keep, NAMES[g("name") as usize]), StatxFlags::empty(),
+                        StatxMask::STATX_BASIC_STATS, p.cast::<Statx>(), u, fl)
+                }
             }
-            "mkdirat" => IoUringSubmissionQueueEntry::new_mkdirat(dir, upath(keep, NAMES[g("name") as usize]), Mode::from(0o755), u, fl),
+            "mkdirat" => IoUringSubmissionQueueEntry::new_mkdirat(dir, upath(keep, NAMES[g("name") as usize]), mode("mode", 0o755), u, fl),
             "unlinkat" => IoUringSubmissionQueueEntry::new_unlink_at(dir, upath(keep, NAMES[g("name") as usize]), g("rmdir") != 0, u, fl),
             "renameat" => {
                 let a = upath(keep, NAMES[g("name") as usize]);
                 let b = upath(keep, NAMES[g("name2") as usize]);
-                IoUringSubmissionQueueEntry::new_rename_at(dir, dir, a, b, RenameFlags::empty(), u, fl)
+                let rf = match g("rf") {
+                    1 => RenameFlags::RENAME_NOREPLACE,
+                    2 => RenameFlags::RENAME_EXCHANGE,
+                    _ => RenameFlags::empty(),
+                };
+                IoUringSubmissionQueueEntry::new_rename_at(dir, dirsel("dir2"), a, b, rf, u, fl)
             }
             "socket" => {
                 let (dom, ty) = if g("kind") == 0 { (AddressFamily::AF_UNIX, SocketType::SOCK_STREAM) } else { (AddressFamily::AF_INET, SocketType::SOCK_DGRAM) };
-                IoUringSubmissionQueueEntry::new_socket(dom, SocketOptions::new(ty, SocketFlags::SOCK_CLOEXEC), 0, u, fl)
+                IoUringSubmissionQueueEntry::new_socket(dom, SocketOptions::new(ty, SocketFlags::SOCK_CLOEXEC), g("proto") as u32, u, fl)
             }
             "timeout" => {
                 keep.ts.push(Box::new(TimeSpec::new(0, 1_000_000)));
@@ -260,6 +301,19 @@ fn build(op: &Value, w: &World, u: u64, link: bool, keep: &mut Keep) -> Built {
     Built { sqe, buf_ix, stx_ix }
 }
 
+/// what kind of socket a descriptor is (and whether it is close-on-exec / non-blocking)
+fn sock_facts(fd: i32) -> Value {
+    let opt = |name: i32| -> i32 {
+        let mut v: i32 = -1;
+        let mut l: u32 = 4;
+        unsafe { libc::getsockopt(fd, libc::SOL_SOCKET, name, std::ptr::addr_of_mut!(v).cast(), &mut l) };
+        v
+    };
+    json!({"domain": opt(libc::SO_DOMAIN), "type": opt(libc::SO_TYPE), "protocol": opt(libc::SO_PROTOCOL),
+        "cloexec": unsafe { libc::fcntl(fd, libc::F_GETFD) } & libc::FD_CLOEXEC != 0,
+        "nonblock": unsafe { libc::fcntl(fd, libc::F_GETFL) } & libc::O_NONBLOCK != 0})
+}
+
 fn stx_json(s: &libc::statx) -> Value {
     json!({"mode": s.stx_mode, "size": s.stx_size, "nlink": s.stx_nlink, "mask": s.stx_mask & libc::STATX_BASIC_STATS})
 }
@@ -268,11 +322,14 @@ fn stx_json(s: &libc::statx) -> Value {
 fn direct(op: &Value, w: &World) -> (i64, Value) {
     let g = |k: &str| op[k].as_u64().unwrap_or(0);
     let kind = op["op"].as_str().unwrap();
+    let dirsel = |k: &str| w.dirfd(g(k)).unwrap_or(libc::AT_FDCWD);
+    let dfd = dirsel("dir");
+    let mode = |k: &str, dflt: u32| if g(k) == 1 { dflt & 0o700 } else { dflt };
     unsafe {
         match kind {
             "openat" => {
                 let (_, of) = open_flags(g("fl"));
-                (ret(i64::from(libc::openat(w.dir, cstr(NAMES[g("name") as usize]).as_ptr(), of, 0o644))), Value::Null)
+                (ret(i64::from(libc::openat(dfd, cstr(NAMES[g("name") as usize]).as_ptr(), of, mode("mode", 0o644)))), Value::Null)
             }
             "close" => (ret(i64::from(libc::close(w.fd(g("h") as usize)))), Value::Null),
             "readv" => {
@@ -301,15 +358,20 @@ fn direct(op: &Value, w: &World) -> (i64, Value) {
             }
             "statx" => {
                 let mut s: libc::statx = std::mem::zeroed();
-                let r = ret(i64::from(libc::statx(w.dir, cstr(NAMES[g("name") as usize]).as_ptr(), 0, libc::STATX_BASIC_STATS, &mut s)));
+                let r = if g("empty") == 1 {
+                    ret(i64::from(libc::statx(w.fd(g("h") as usize), cstr("").as_ptr(), libc::AT_EMPTY_PATH, libc::STATX_BASIC_STATS, &mut s)))
+                } else {
+                    ret(i64::from(libc::statx(dfd, cstr(NAMES[g("name") as usize]).as_ptr(), 0, libc::STATX_BASIC_STATS, &mut s)))
+                };
                 (r, if r == 0 { stx_json(&s) } else { Value::Null })
             }
-            "mkdirat" => (ret(i64::from(libc::mkdirat(w.dir, cstr(NAMES[g("name") as usize]).as_ptr(), 0o755))), Value::Null),
-            "unlinkat" => (ret(i64::from(libc::unlinkat(w.dir, cstr(NAMES[g("name") as usize]).as_ptr(), if g("rmdir") != 0 { libc::AT_REMOVEDIR } else { 0 }))), Value::Null),
-            "renameat" => (ret(i64::from(libc::renameat(w.dir, cstr(NAMES[g("name") as usize]).as_ptr(), w.dir, cstr(NAMES[g("name2") as usize]).as_ptr()))), Value::Null),
+            "mkdirat" => (ret(i64::from(libc::mkdirat(dfd, cstr(NAMES[g("name") as usize]).as_ptr(), mode("mode", 0o755)))), Value::Null),
+            "unlinkat" => (ret(i64::from(libc::unlinkat(dfd, cstr(NAMES[g("name") as usize]).as_ptr(), if g("rmdir") != 0 { libc::AT_REMOVEDIR } else { 0 }))), Value::Null),
+            "renameat" => (ret(i64::from(libc::renameat2(dfd, cstr(NAMES[g("name") as usize]).as_ptr(), dirsel("dir2"), cstr(NAMES[g("name2") as usize]).as_ptr(), g("rf") as u32))), Value::Null),
             "socket" => {
                 let (dom, ty) = if g("kind") == 0 { (libc::AF_UNIX, libc::SOCK_STREAM) } else { (libc::AF_INET, libc::SOCK_DGRAM) };
-                (ret(i64::from(libc::socket(dom, ty | libc::SOCK_CLOEXEC, 0))), Value::Null)
+                let r = ret(i64::from(libc::socket(dom, ty | libc::SOCK_CLOEXEC, g("proto") as i32)));
+                (r, if r >= 0 { sock_facts(r as i32) } else { Value::Null })
             }
             "timeout" => {
                 let ts = libc::timespec { tv_sec: 0, tv_nsec: 1_000_000 };
@@ -343,6 +405,10 @@ fn param_flags(bits: u32) -> IoUringParamFlags {
 }
 
 fn run(batches: &str, root: &str, entries: u32, flagbits: u32, out: &mut Out) {
+    // the working directory: a third place with one file of its own, used read-only through dir_fd = None
+    std::fs::create_dir_all(format!("{root}/C")).unwrap();
+    std::fs::write(format!("{root}/C/cw"), b"cwd file").unwrap();
+    std::env::set_current_dir(format!("{root}/C")).unwrap();
     let mut a = World::open(root, "A");
     let mut b = World::open(root, "B");
     a.reset();
@@ -481,6 +547,7 @@ fn run(batches: &str, root: &str, entries: u32, flagbits: u32, out: &mut Out) {
                     json!(String::from_utf8_lossy(&data[..(res as usize).min(64)]))
                 }
                 "statx" if res == 0 => stx_json(&keep.stx[built[k].stx_ix.unwrap()]),
+                "socket" if res >= 0 => sock_facts(res as i32),
                 _ => Value::Null,
             };
             payload_a.push(p);
@@ -663,7 +730,8 @@ fn sock_ring(ring: &mut IoUring, w: &mut SockWorld, step: &Value, u: u64, lost_i
     let sqe = unsafe {
         match kind {
             "connect" => IoUringSubmissionQueueEntry::new_connect_unix(Fd::try_new(w.client[c]).unwrap(), &arg, u, fl),
-            "accept" => IoUringSubmissionQueueEntry::new_accept_unix(Fd::try_new(w.listener).unwrap(), peer.as_mut_ptr().cast(), &mut peer_len, SocketFlags::SOCK_CLOEXEC, u, fl),
+            "accept" => IoUringSubmissionQueueEntry::new_accept_unix(Fd::try_new(w.listener).unwrap(), peer.as_mut_ptr().cast(), &mut peer_len,
+                if u % 2 == 0 { SocketFlags::SOCK_CLOEXEC } else { SocketFlags::SOCK_NONBLOCK }, u, fl),
             "send" | "sendfd" => IoUringSubmissionQueueEntry::new_sendmsg(Fd::try_new(w.client[c]).unwrap(), &guard, 0, u, fl),
             "recv" => IoUringSubmissionQueueEntry::new_recvmsg(Fd::try_new(w.server_side[c]).unwrap(), std::ptr::addr_of_mut!(rhdr).cast(), 0, u, fl),
             "peek" => IoUringSubmissionQueueEntry::new_recvmsg(Fd::try_new(w.server_side[c]).unwrap(), std::ptr::addr_of_mut!(rhdr).cast(), libc::MSG_PEEK, u, fl),
@@ -714,7 +782,7 @@ fn sock_ring(ring: &mut IoUring, w: &mut SockWorld, step: &Value, u: u64, lost_i
     let payload = match kind {
         "accept" if res >= 0 => {
             w.server_side[w.pending.pop_front().unwrap_or(0)] = res as i32;
-            json!({"addrlen": peer_len, "family": u16::from_ne_bytes([peer[0], peer[1]])})
+            json!({"addrlen": peer_len, "family": u16::from_ne_bytes([peer[0], peer[1]]), "facts": sock_facts(res as i32)})
         }
         "recv" | "peek" if res >= 0 => {
             let (nf, same) = w.received_fds(&ctrl, rhdr.msg_controllen);
@@ -732,7 +800,7 @@ fn sock_ring(ring: &mut IoUring, w: &mut SockWorld, step: &Value, u: u64, lost_i
 }
 
 /// the same step as direct system calls
-fn sock_direct(w: &mut SockWorld, step: &Value) -> (i64, Value) {
+fn sock_direct(w: &mut SockWorld, step: &Value, u: u64) -> (i64, Value) {
     let kind = step[0].as_str().unwrap();
     let c = step[1].as_u64().unwrap_or(0) as usize;
     let n = step[2].as_u64().unwrap_or(0) as usize;
@@ -753,10 +821,10 @@ fn sock_direct(w: &mut SockWorld, step: &Value) -> (i64, Value) {
             "accept" => {
                 let mut peer = [0u8; 112];
                 let mut len: u32 = 110;
-                let r = ret(i64::from(libc::accept4(w.listener, peer.as_mut_ptr().cast(), &mut len, libc::SOCK_CLOEXEC)));
+                let r = ret(i64::from(libc::accept4(w.listener, peer.as_mut_ptr().cast(), &mut len, if u % 2 == 0 { libc::SOCK_CLOEXEC } else { libc::SOCK_NONBLOCK })));
                 if r >= 0 {
                     w.server_side[w.pending.pop_front().unwrap_or(0)] = r as i32;
-                    (r, json!({"addrlen": len, "family": u16::from_ne_bytes([peer[0], peer[1]])}))
+                    (r, json!({"addrlen": len, "family": u16::from_ne_bytes([peer[0], peer[1]]), "facts": sock_facts(r as i32)}))
                 } else {
                     (r, Value::Null)
                 }
@@ -824,7 +892,7 @@ fn run_sock(scripts: &str, root: &str, entries: u32, flagbits: u32, out: &mut Ou
         for (k, step) in sc["steps"].as_array().unwrap().iter().enumerate() {
             u += 1;
             let (cqes, pa, got_slot, to_submit, enter, panicked) = sock_ring(&mut ring, &mut a, step, u, &mut lost);
-            let (rb, pb) = sock_direct(&mut b, step);
+            let (rb, pb) = sock_direct(&mut b, step, u);
             let op = match step[0].as_str().unwrap() {
                 "send" | "sendfd" => "sendmsg",
                 "recv" | "peek" => "recvmsg",
